@@ -76,6 +76,8 @@ def gen_case(rng):
            "forwarding": fwd, "cfi": cfi}
     if not mod["verDefs"]:
         mod["verReqs"], mod["verEntries"] = [], []
+    # the 'hidden' flag of an entry (foo@VERS_1 rather than foo@@VERS_1) does not make its version any less used
+    mod["verHidden"] = [s_ for s_, _ in mod["verEntries"] if rng.random() < 0.4]
     req = []
     for s in rng.sample(syms, rng.randint(1, min(3, nsyms))):
         req.append([s, rng.random() < 0.6])
@@ -118,7 +120,7 @@ def build(mod):
         if mod["verDefs"]:
             A.elf_symbol_versions.set(m, ({i: (["V%d" % i], fl) for i, fl in mod["verDefs"]},
                                           {lib: {i: "R%d" % i for i in ids} for lib, ids in mod["verReqs"]},
-                                          {S[s]: (i, False) for s, i in mod["verEntries"]}))
+                                          {S[s]: (i, s in mod.get("verHidden", [])) for s, i in mod["verEntries"]}))
     else:
         if mod["peImports"]:
             A.pe_imported_symbols.set(m, [S[s] for s in mod["peImports"]])
